@@ -246,19 +246,18 @@ func (g *matchGen) enumN() int {
 func instantiatePattern(rng *rand.Rand, pat string, vals []string) string {
 	var sb strings.Builder
 	for i := 0; i < len(pat); {
+		closing := strings.IndexByte(pat[i:], '}')
 		switch {
-		case pat[i] == '{':
-			j := strings.IndexByte(pat[i:], '}') + i
+		case pat[i] == '{' && closing > 0:
 			sb.WriteString(vals[rng.Intn(len(vals))])
-			i = j + 1
-		case pat[i] == '*' && i+1 < len(pat) && pat[i+1] == '{':
-			j := strings.IndexByte(pat[i:], '}') + i
+			i += closing + 1
+		case pat[i] == '*' && i+1 < len(pat) && pat[i+1] == '{' && closing > 0:
 			sb.WriteString(vals[rng.Intn(len(vals))])
 			if rng.Intn(2) == 0 {
 				sb.WriteString("/" + vals[rng.Intn(len(vals))])
 			}
-			i = j + 1
-		default:
+			i += closing + 1
+		default: // literal text (and malformed wildcards, kept as they are)
 			sb.WriteByte(pat[i])
 			i++
 		}
